@@ -71,7 +71,7 @@ type CommandInfo struct {
 type Record struct {
 	Seq   int
 	Epoch int    // core incarnation (1 = first child); 0 before any core
-	Dir   string // "call" (core→master) or "event" (master→core)
+	Dir   string // "call" (core→master), "event" (master→core) or "note" (DROPSTREAM / DISCONNECTED markers)
 	Type  string // SUBSCRIBE ACCEPT DECLINE KILL MESSAGE RECONCILE REVIVE ACKNOWLEDGE SUPPRESS TEARDOWN … / SUBSCRIBED OFFERS UPDATE MESSAGE FAILURE RESCIND HEARTBEAT ERROR
 	// joined fields (empty when not applicable)
 	StreamID   string
@@ -128,6 +128,9 @@ func (r Record) String() string {
 	}
 	if r.MsgType != "" {
 		s += " " + r.MsgType + " " + r.MsgDetail
+	}
+	if r.MsgType == "" && r.MsgDetail != "" {
+		s += " " + r.MsgDetail
 	}
 	if r.Dir == "event" && !r.Delivered {
 		s += " (not delivered)"
